@@ -318,6 +318,7 @@ def analyse(rep: Report) -> None:
     # branch taken or not) re-anchors the grid when the branch flips; the new grid continues the old
     # one only if p divides the shift, which nothing constrains.
     anchors: dict[str, set[float]] = {}
+    backoffs: dict[str, list[tuple[float, float]]] = {}
     for s in exits:
         s.close()
         lab = _label(s)
@@ -327,6 +328,8 @@ def analyse(rep: Report) -> None:
         up, lo_ = s.upper_diff(AST_, ghost), -s.upper_diff(ghost, AST_)
         if abs(up) != INF and up == lo_:
             anchors.setdefault(lab, set()).add(up)
+            if up < 0:
+                backoffs.setdefault(lab, []).append((s.upper_diff(PT, ghost), -up))
         else:
             anchors.setdefault(lab, set()).add(float('nan'))
     for lab, offs in sorted(anchors.items()):
@@ -340,6 +343,21 @@ def analyse(rep: Report) -> None:
                      'depending on a back-off branch, and publishTime = availabilityStartTime + k*p: when the branch '
                      'flips the grid is re-anchored by the difference, which p need not divide - publishTime '
                      'moves backward as now advances', live)
+    # ... and the back-off itself is taken only while publishTime is within the first <shift> of the calendar
+    # unit whose floor is the anchor: a back-off decided by anything else (the distance to another unit's
+    # floor) is taken again later in the unit, and availabilityStartTime moves backward when it is
+    for lab, rows in sorted(backoffs.items()):
+        key = f'back-off start={lab} only at the start of the unit'
+        worst = max(w for w, _sh in rows)
+        shift = rows[0][1]
+        if all(w <= sh for w, sh in rows):
+            rep.ok('R08.9', construct, key, f'{len(rows)} path(s): publishTime - floor <= {worst:g} s')
+        else:
+            rep.fail('R08.9', construct, key,
+                     f'availabilityStartTime for start={lab} is moved back by {shift:g} s on a path where publishTime is '
+                     f'not known to be within {shift:g} s of the calendar floor it is anchored at (publishTime - floor <= '
+                     f'{worst:g}): the back-off is decided by the distance to something else, is taken again later in '
+                     'the unit, and availabilityStartTime moves backward as now advances', live)
     for (rid, key), rs in results.items():
         bad = [r for r in rs if not r[0]]
         if bad:
